@@ -27,9 +27,9 @@ func init() { harness.Register(check{}) }
 func (check) ID() string { return "C03" }
 
 const (
-	valsPerCase    = 8
-	quickRandom    = 512    // cases of valsPerCase random values
-	thoroughRandom = 102400 // 200 x quick
+	valsPerCase    = 16
+	quickRandom    = 2048   // cases of valsPerCase random values
+	thoroughRandom = 409600 // 200 x quick
 )
 
 func randomCases(tier string) int {
@@ -52,7 +52,7 @@ func (check) Cases(tier string) int {
 func (check) Exhaustive(string) bool { return false }
 
 func (check) Rule() string {
-	return "setting values: a finite boundary table (0, +-1, +-2^k and +-(2^k+-1) for k in {7,8,15,16,31,32,53,63,64}, float neighbours of +-2^31/2^32/2^63/2^64/2^53, MaxFloat32 / the float32 rounding limit / MaxFloat64 / subnormals and their neighbours, +-Inf, NaN, -0, fractional values at every sized maximum, second counts at +-9223372036(.854775807) and at 2^53ns/2^62ns; each as int64, uint64, float64 and in every strconv spelling: decimal, 0x, 0X, 0b, 0o, 0NNN, 1_000, +N, N.0, Ne0, %g/%e/%E/%x/%f; plus booleans, duration strings at the int64 limits and unparsable strings) - one case per table value: the value built 4 ways (NewFrom literal; SetInt/SetUint/SetFloat/SetString/SetBool; NewFrom with ${src} references and VarExp, src literal or Set*) x 15 target kinds x plain/*T/named/*named x struct field, map[string]T value, []T element, plus the getters Bool/Int/Uint/Float/String; then random cases of 8 values each within +-4 (ulp) of a boundary, every kind and getter through one random (construction, variant, route). Non-trivial = the setting value is not zero/false/blank; distinct = distinct (value class = kind, syntax, sign, bit length/exponent, fractional?; target type; construction/route)."
+	return "setting values: a finite boundary table (0, +-1, +-2^k and +-(2^k+-1) for k in {7,8,15,16,31,32,53,63,64}, float neighbours of +-2^31/2^32/2^63/2^64/2^53, MaxFloat32 / the float32 rounding limit / MaxFloat64 / subnormals and their neighbours, +-Inf, NaN, -0, fractional values at every sized maximum, second counts at +-9223372036(.854775807) and at 2^53ns/2^62ns; each as int64, uint64, float64 and in every strconv spelling: decimal, 0x, 0X, 0b, 0o, 0NNN, 1_000, +N, N.0, Ne0, %g/%e/%E/%x/%f; plus booleans, duration strings at the int64 limits and unparsable strings) - one case per table value: the value built 4 ways (NewFrom literal; SetInt/SetUint/SetFloat/SetString/SetBool; NewFrom with ${src} references and VarExp, src literal or Set*) x 15 target kinds x plain/*T/named/*named x struct field, map[string]T value, []T element, plus the getters Bool/Int/Uint/Float/String; then random cases of 16 values each within +-4 (ulp) of a boundary, every kind and getter through one random (construction, variant, route). Non-trivial = the setting value is not zero/false/blank; distinct = distinct (value class = kind, syntax, sign, bit length/exponent, fractional?; target type; construction/route)."
 }
 
 func (check) Assumptions() []string {
@@ -487,8 +487,8 @@ func (ru *runner) judge(ki int, k *tkind, err error, got reflect.Value, present 
 		switch {
 		case e.truncated:
 			ru.outcome(k, "truncated")
-		case k.class == cFloat && !e.strict && ru.s.kind != 'f' && ru.s.kind != 's':
-			ru.outcome(k, "exact-or-rounded")
+		case e.rounded:
+			ru.outcome(k, "rounded")
 		default:
 			ru.outcome(k, "exact")
 		}
@@ -498,24 +498,37 @@ func (ru *runner) judge(ki int, k *tkind, err error, got reflect.Value, present 
 	ru.outcome(k, "wrong-value")
 }
 
-// runFull: the whole cross product for one value.
+// runFull: the whole cross product for one value. The string kind goes last:
+// its named variants panic for every value on the pinned tree and would
+// otherwise use up the per-case violation slots first.
 func runFull(res *harness.R, s src, verbose bool, onlyHazard bool) {
 	ru := newRunner(res, s, verbose)
-	for cons := 0; cons < nCons; cons++ {
-		for ki := range kinds {
+	kind := func(ki int) {
+		for cons := 0; cons < nCons; cons++ {
 			for _, t := range targetsOf[ki] {
 				for route := 0; route < nRoutes; route++ {
-					if hazard(t, route) != onlyHazard {
-						continue
+					if hazard(t, route) == onlyHazard {
+						ru.unpack(cons, ki, t, route)
 					}
-					ru.unpack(cons, ki, t, route)
 				}
 			}
 		}
-		if !onlyHazard {
-			for gi := range getters {
+	}
+	for ki, k := range kinds {
+		if k.class != cString {
+			kind(ki)
+		}
+	}
+	if !onlyHazard {
+		for gi := range getters {
+			for cons := 0; cons < nCons; cons++ {
 				ru.getter(cons, gi)
 			}
+		}
+	}
+	for ki, k := range kinds {
+		if k.class == cString {
+			kind(ki)
 		}
 	}
 }
